@@ -428,15 +428,29 @@ def execute(ctx, hist, judge_state):
             except Exception:  # noqa: BLE001
                 pass
         elif op == "bfa":
-            bad = dict(w.actions)
-            bad[g.start] = [bad[g.start]] * (len(g.by[g.start]) + 1)
+            if ctx is not None and ctx.rng.random() < 0.5:
+                bad = dict(w.actions)
+                bad[g.start] = [bad[g.start]] * (len(g.by[g.start]) + 1)
+            else:
+                # other actions for the rules, and a list of actions for a terminal (refused
+                # only after the rules have been re-bound)
+                bad = {n: (lambda name: (lambda context, nodes: ("BAD", name)))(n) for n in g.nts}
+                bad[g.terms[0]] = [lambda context, value: "BAD-T"]
             try:
                 pgx.lr(pg, actions=bad)
             except (pgx.CaseTimeout, pgx.BudgetExceeded):
                 raise
+            except Exception as e:  # noqa: BLE001
+                if ctx is not None:
+                    ctx.count("failed_builds.action_table:" + type(e).__name__)
+            # "a later successful construction": the next builder passes the right table (the very
+            # same dict object) again
+            try:
+                w.keep = getattr(w, "keep", []) + [pgx.glr(pg, actions=w.actions)]
+            except (pgx.CaseTimeout, pgx.BudgetExceeded):
+                raise
             except Exception:  # noqa: BLE001
                 pass
-            # "with the same actions": the next builder passes the right table again
         elif op == "bfi":
             inject_fault(pg, w.actions, arg)
         elif op == "ng":
